@@ -45,4 +45,16 @@ static int verif_replay_status(void) { return verif_replay_failed ? 1 : 0; }
 
 #define OFF(p) ((size_t)__CPROVER_POINTER_OFFSET(p))
 
+/* bounded quantifiers: constant range MAXN under CBMC (the only form the SAT back end decides
+ * reliably, DESIGN.md 2/p2), plain loops natively */
+#ifdef VERIF_REPLAY
+#define EXISTS_LT(j, n, P) ({ int _r = 0; for (size_t j = 0; j < (size_t)(n); j++) if (P) { _r = 1; break; } _r; })
+#define FORALL_LT(j, n, P) ({ int _r = 1; for (size_t j = 0; j < (size_t)(n); j++) if (!(P)) { _r = 0; break; } _r; })
+#define IMPLIES(a, b) (!(a) || (b))
+#else
+#define EXISTS_LT(j, n, P) __CPROVER_exists { size_t j; (j < MAXN) && ((j < (size_t)(n)) && (P)) }
+#define FORALL_LT(j, n, P) __CPROVER_forall { size_t j; (j < MAXN) ==> ((j < (size_t)(n)) ==> (P)) }
+#define IMPLIES(a, b) ((a) ==> (b))
+#endif
+
 #endif
